@@ -3,4 +3,4 @@ From Wz Require Import lib.Bytes lib.Utf8 lib.ExtractBase C08.LibStr C08.Gen C08
 Extraction Language OCaml.
 (* iri_to_uri instantiated with the identity: the correspondence runs use Location values it leaves alone *)
 Definition wsgi_response_id (r : resp) (is_head : bool) := wsgi_response (fun s => s) (fun _ l => l) [] r is_head.
-Extraction "C05/model_extracted.ml" force_types clean_status make_sequence set_data ensure_sequence freeze wsgi_response_id.
+Extraction "C05/model_extracted.ml" force_types clean_status make_sequence set_data ensure_sequence freeze stream_write raw_append set_length_header wsgi_response_id.
